@@ -279,6 +279,8 @@ def first_yield_tags(A: Analysis, fn: FuncInfo) -> list[tuple[str, str, ast.AST]
 
 
 TAGLESS_OK_TYPES = {"type(None)", "type(Ellipsis)", "bool", "range"}
+# registrations that all denote *type objects* (one serializer, one tag, by design)
+TYPE_OBJECT_REGS = {"type", "ty._GenericAlias", "ty._SpecialForm", "types.UnionType"}
 
 
 def tag_rule(A: Analysis, col: Collector, rule: str):
@@ -295,7 +297,11 @@ def tag_rule(A: Analysis, col: Collector, rule: str):
         for kind, tag, y in tags:
             if kind == "literal":
                 literal.setdefault(tag, []).append(f.qualname)
-                col.ok(rule, f"{f.name} [{', '.join(regs)}] starts with the constant tag {tag!r}", A.loc(y))
+                shared = set(regs) - TYPE_OBJECT_REGS
+                if len(regs) > 1 and len(shared) > 1:
+                    col.fail(rule, f.qualname, f"one-literal-tag-for-several-types:{tag}", f"{f.name} is registered for {regs} but starts with the single constant tag {tag!r}: values of these different types with equal content hash alike", A.loc(y))
+                else:
+                    col.ok(rule, f"{f.name} [{', '.join(regs)}] starts with the constant tag {tag!r}", A.loc(y))
             elif kind == "classname":
                 col.ok(rule, f"{f.name} [{', '.join(regs)}] starts with a tag derived from the object's class name (distinct by type)", A.loc(y))
             elif kind == "tagless":
@@ -564,7 +570,10 @@ def identity_readset_rule(A: Analysis, col: Collector, rule: str):
     forbidden = {"cache_root", "_cache_root", "worker", "submitter", "environment", "audit", "readonly_caches", "uid", "_uid", "cache_dir", "hooks"}
     for f in fns:
         col.scope(f.qualname)
-        bad = sorted({n.attr for n in walk_own(f.node) if isinstance(n, ast.Attribute) and n.attr in forbidden})
+        bad = {n.attr for n in walk_own(f.node) if isinstance(n, ast.Attribute) and n.attr in forbidden}
+        bad |= {n.args[1].value for n in walk_own(f.node) if isinstance(n, ast.Call) and dotted(n.func) == "getattr" and len(n.args) >= 2 and isinstance(n.args[1], ast.Constant) and n.args[1].value in forbidden}
+        bad |= {q for n in walk_own(f.node) if isinstance(n, ast.Call) for q in A.callee_names(n, f) if q in NONDET_CALLS and q != "id"}
+        bad = sorted(bad)
         if bad:
             col.fail(rule, f.qualname, "identity-reads:" + "+".join(bad), f"the task identity reads {bad}: it depends on where / by whom the task is run", A.loc(f.node))
         else:
